@@ -714,4 +714,158 @@ theorem setItem_spec (bs : List (Text × Expr)) (ml : Bool) (k : Text) (v : PyVa
     refine ⟨⟨keysNodup_append _ k hs.1 hnot, bsReadable_append bs k _ hs.2 hk hx⟩, ?_⟩
     rw [denoteBs_append bs k _ hnot, denoteX_bindValue]
 
+/-! ## Python float reprs and Nix float tokens -/
+
+theorem isPyExp_isExpPart (ex : Text) (h : isPyExp ex = true) :
+    isExpPart ex = true ∧ ex.contains '.' = false := by
+  match ex with
+  | [] => simp [isPyExp] at h
+  | [_] => simp [isPyExp] at h
+  | e :: s :: ds =>
+    by_cases he : e = 'e'
+    · subst he
+      simp only [isPyExp, Bool.and_eq_true, Bool.or_eq_true, beq_iff_eq, decide_eq_true_eq, List.all_eq_true] at h
+      obtain ⟨⟨hs, hlen⟩, hd⟩ := h
+      have hne : ds ≠ [] := by intro hc; subst hc; simp at hlen
+      have hnodot : ∀ a ∈ ds, a ≠ '.' := by
+        intro a ha hc; subst hc; have := hd _ ha; revert this; decide
+      have hdots : ds.contains '.' = false := by
+        simp only [List.contains_eq_mem, decide_eq_false_iff_not]
+        intro hm; exact hnodot _ hm rfl
+      rcases hs with rfl | rfl
+      · refine ⟨?_, ?_⟩
+        · simp only [isExpPart]; simpa [hne] using hd
+        · simp only [List.contains_eq_mem, decide_eq_false_iff_not] at hdots ⊢
+          simp [hdots]
+      · refine ⟨?_, ?_⟩
+        · simp only [isExpPart]; simpa [hne] using hd
+        · simp only [List.contains_eq_mem, decide_eq_false_iff_not] at hdots ⊢
+          simp [hdots]
+    · rw [isPyExp.eq_2 _ (by intro s' ds' hc; injection hc with h1 _; exact he h1)] at h
+      cases h
+
+/-- For the repr of a finite Python float, being a Nix float token is exactly having a `.`:
+    the reprs the code mis-renders are those with an exponent and no fraction (`1e+16`, `1e-07`). -/
+theorem pyFloatRepr_nixFloat_iff_dot (r : Text) (h : isPyFloatRepr r = true) :
+    isNixFloat (unsignedRepr r) = (unsignedRepr r).contains '.' := by
+  unfold isPyFloatRepr at h
+  simp only at h
+  generalize unsignedRepr r = u at h ⊢
+  have hsplit : u = u.takeWhile isAsciiDigit ++ u.dropWhile isAsciiDigit :=
+    (List.takeWhile_append_dropWhile).symm
+  have hipd : ∀ a ∈ u.takeWhile isAsciiDigit, a ≠ '.' := by
+    intro a ha hc; subst hc; have := mem_takeWhile_imp' _ _ ha; revert this; decide
+  simp only [Bool.and_eq_true] at h
+  obtain ⟨⟨hne, hlead⟩, hm⟩ := h
+  have hcont : ∀ rest : Text, (u.takeWhile isAsciiDigit ++ rest).contains '.' = rest.contains '.' := by
+    intro rest
+    have : ¬ '.' ∈ u.takeWhile isAsciiDigit := fun hm => hipd _ hm rfl
+    simp [this]
+  split at hm
+  · -- a fraction: `ip . fp [exp]`
+    rename_i r2 hdr
+    simp only [Bool.and_eq_true, Bool.or_eq_true] at hm
+    obtain ⟨hfp, hex⟩ := hm
+    have hR : u.contains '.' = true := by rw [hsplit, hcont, hdr]; simp
+    rw [hR]
+    unfold isNixFloat
+    simp only [hdr, Bool.and_eq_true, Bool.or_eq_true]
+    refine ⟨?_, ?_⟩
+    · rcases hex with hex | hex
+      · have : List.dropWhile isAsciiDigit r2 = [] := by simpa using hex
+        rw [this]; rfl
+      · exact (isPyExp_isExpPart _ hex.1.1).1
+    · simp only [Bool.not_eq_true', Bool.or_eq_true, beq_iff_eq] at hne hlead
+      match hip : u.takeWhile isAsciiDigit with
+      | [] => rw [hip] at hne; simp at hne
+      | c :: cs =>
+        rw [hip] at hlead
+        rcases hlead with hl | hl
+        · right
+          injection hl with h1 h2
+          subst h1; subst h2
+          exact ⟨by simp, hfp⟩
+        · left
+          simp only [List.head?_cons, bne_iff_ne, ne_eq, Option.some.injEq] at hl
+          simpa using hl
+  · -- no fraction: `d e±dd`
+    rename_i ex hdr
+    simp only [Bool.and_eq_true] at hm
+    have hexp := isPyExp_isExpPart _ hm.1.1
+    have hR : u.contains '.' = false := by rw [hsplit, hcont, hdr]; exact hexp.2
+    rw [hR]
+    unfold isNixFloat
+    simp only [hdr]
+    rfl
+  · cases hm
+
+/-! ## For values of the domain, the side condition is exactly "avoids the three defects" -/
+
+mutual
+theorem elemReadable_eq_avoids : ∀ (e : Elem) (b : Bool), elemInDomain e = true →
+    elemReadable b e = elemAvoids b e
+  | .none, _, _ => rfl
+  | .bool _, _, _ => rfl
+  | .int _, _, _ => rfl
+  | .float r, b, h => by
+    simp only [elemInDomain] at h
+    simp only [elemReadable, elemAvoids, pyFloatRepr_nixFloat_iff_dot r h]
+  | .str s, _, h => by simpa [elemReadable, elemAvoids, elemInDomain] using h
+  | .list xs, _, h => by
+    simp only [elemInDomain] at h
+    simp only [elemReadable, elemAvoids]
+    exact elemsReadable_eq_avoid xs h
+theorem elemsReadable_eq_avoid : ∀ (xs : List Elem), elemsInDomain xs = true →
+    elemsReadable xs = elemsAvoid xs
+  | [], _ => rfl
+  | x :: xs, h => by
+    simp only [elemsInDomain, Bool.and_eq_true] at h
+    simp only [elemsReadable, elemsAvoid, elemReadable_eq_avoids x true h.1, elemsReadable_eq_avoid xs h.2]
+end
+
+mutual
+theorem valReadable_eq_avoids : ∀ (v : PyVal), valInDomain v = true → valReadable v = valAvoids v
+  | .elem e, h => by
+    simp only [valInDomain] at h
+    simp only [valReadable, valAvoids, elemReadable_eq_avoids e false h]
+  | .dict kvs, h => by
+    simp only [valInDomain, Bool.and_eq_true] at h
+    simp only [valReadable, valAvoids, h.1, Bool.true_and]
+    exact kvsReadable_eq_avoid kvs h.2
+theorem kvsReadable_eq_avoid : ∀ (kvs : List (Text × PyVal)), kvsInDomain kvs = true →
+    kvsReadable kvs = kvsAvoid kvs
+  | [], _ => rfl
+  | (k, v) :: rest, h => by
+    simp only [kvsInDomain, Bool.and_eq_true] at h
+    simp only [kvsReadable, kvsAvoid, h.1.1, Bool.true_and, valReadable_eq_avoids v h.1.2,
+      kvsReadable_eq_avoid rest h.2]
+end
+
+theorem ctxReadable_eq_avoids (c : Ctx) (h : ctxInDomain c = true) : ctxReadable c = ctxAvoids c := by
+  cases c with
+  | fromDict d =>
+    simp only [ctxInDomain] at h
+    have := valReadable_eq_avoids (.dict d) h
+    simpa [ctxReadable, ctxAvoids, valAvoids] using this
+  | values d =>
+    simp only [ctxInDomain] at h
+    have := valReadable_eq_avoids (.dict d) h
+    simpa [ctxReadable, ctxAvoids, valAvoids] using this
+  | binding k v =>
+    simp only [ctxInDomain, Bool.and_eq_true] at h
+    simp [ctxReadable, ctxAvoids, h.1, valReadable_eq_avoids v h.2]
+  | list xs =>
+    simp only [ctxInDomain] at h
+    simp [ctxReadable, ctxAvoids, elemsReadable_eq_avoid xs h]
+  | setItem d k v =>
+    simp only [ctxInDomain, Bool.and_eq_true] at h
+    have := valReadable_eq_avoids (.dict d) h.1.1
+    simp only [valAvoids] at this
+    simp [ctxReadable, ctxAvoids, this, h.1.2, valReadable_eq_avoids v h.2]
+  | setItemOn d ml k v =>
+    simp only [ctxInDomain, Bool.and_eq_true] at h
+    have := valReadable_eq_avoids (.dict d) h.1.1
+    simp only [valAvoids] at this
+    simp [ctxReadable, ctxAvoids, this, h.1.2, valReadable_eq_avoids v h.2]
+
 end Nima
